@@ -253,13 +253,30 @@ impl ZerokitMerkleTree for PmTree {
         let mut indices = indices.into_iter().collect::<Vec<_>>();
         indices.sort();
 
+        // Reject the whole batch before touching the tree
+        let capacity = self.capacity();
+        if start > capacity || leaves.len() > capacity - start {
+            return Err(Report::msg("provided leaves do not fit in the tree"));
+        }
+        if indices.iter().any(|&i| i >= capacity) {
+            return Err(Report::msg("index to remove exceeds set size"));
+        }
+
         match (leaves.len(), indices.len()) {
             (0, 0) => Err(Report::msg("no leaves or indices to be removed")),
             (1, 0) => self.set(start, leaves[0]),
             (0, 1) => self.delete(indices[0]),
             (_, 0) => self.set_range(start, leaves.into_iter()),
             (0, _) => self.remove_indices(&indices),
-            (_, _) => self.remove_indices_and_set_leaves(start, leaves, &indices),
+            (_, _) => {
+                // The combined update only places removals that start before the written range
+                if indices[0] > start {
+                    return Err(Report::msg(
+                        "removals inside or after the written range are not supported together with a write",
+                    ));
+                }
+                self.remove_indices_and_set_leaves(start, leaves, &indices)
+            }
         }
     }
 
